@@ -161,6 +161,12 @@ def _parse_string(value: Any) -> str:
     return str(value)
 
 
+def _parse_string_input(value: Any) -> str:
+    if isinstance(value, (bool, dict)):
+        raise ValueError('String cannot represent value "%s"' % (value,))
+    return _parse_string(value)
+
+
 def _serialize_string(value: Any) -> str:
     if value in (True, False):
         return str(value).lower()
@@ -178,7 +184,7 @@ String = ScalarType(
         "GraphQL to represent free-form human-readable text."
     ),
     serialize=_serialize_string,
-    parse=_parse_string,
+    parse=_parse_string_input,
     parse_literal=_coerce_string_node,
 )  # type: ScalarType
 
